@@ -16,7 +16,8 @@ CONSTANTS Shapes,   \* set of 10*n + m (n alternatives, m criteria)
 
 UNIT == 256
 (* [q, p, v] in value units, 0 = absent; domain: q < p < v, veto only with p *)
-ThTable == << <<0, 0, 0>>, <<1, 0, 0>>, <<1, 2, 0>>, <<0, 2, 0>>, <<1, 2, 4>>, <<0, 2, 4>>, <<1, 3, 7>> >>
+(* 6 has its veto threshold on the value grid: a difference can EQUAL v (full veto starts strictly above v) *)
+ThTable == << <<0, 0, 0>>, <<1, 0, 0>>, <<1, 2, 0>>, <<0, 2, 0>>, <<1, 2, 4>>, <<0, 2, 3>>, <<1, 3, 7>> >>
 KTable == << <<1, 1, 1>>, <<1, 3, 2>>, <<2, 2, 4>> >>
 DistFuns == << [a |-> RZero, b |-> <<1, 8>>], [a |-> <<-1, 8>>, b |-> <<1, 4>>], [a |-> RZero, b |-> RZero],
                [a |-> <<-3, 20>>, b |-> <<3, 10>>], [a |-> <<-1, 2>>, b |-> <<1, 2>>] >>
